@@ -73,7 +73,10 @@ def make_sketch(cfg, shared_memory=False):
             t = np.int64
         return HeavyHitters(t(cfg["width"]), t(cfg["depth"]), t(cfg["max_key_len"]), cfg.get("phi"), shared_memory=shared_memory)
     if k == "hll":
-        return HyperLogLog(cfg["p"], cfg["seed"], shared_memory=shared_memory)
+        # p and seed are converted with np.uint64() by the constructor, and load() itself passes numpy integers
+        t = {None: int, "u8": np.uint8, "i8": np.int8, "u16": np.uint16, "u32": np.uint32, "i32": np.int32, "u64": np.uint64, "i64": np.int64}[cfg.get("argtype")]
+        seed = cfg["seed"]
+        return HyperLogLog(t(cfg["p"]), np.uint64(seed) if cfg.get("argtype") and seed < 2**64 else seed, shared_memory=shared_memory)
     raise ValueError(k)
 
 
@@ -316,7 +319,19 @@ class World:
         if op == "update_list":
             # any iterable is accepted (the loop is 'for key in keys'): list, tuple, or a one-shot iterator
             how = step.get("as", "list")
-            arg = list(step["keys"]) if how == "list" else tuple(step["keys"]) if how == "tuple" else iter(list(step["keys"]))
+            if how == "reentrant" and step["keys"]:
+                # the iterable itself uses the sketch while update() is consuming it (legal, if unusual, Python):
+                # after handing out its first key it adds that key once more through add()
+                def gen(keys=list(step["keys"]), sk=sk):
+                    for t_, k_ in enumerate(keys):
+                        yield k_
+                        if t_ == 0:
+                            sk.add(keys[0], 1)
+
+                arg = gen()
+                self._model_add(i, step["keys"][0], 1)
+            else:
+                arg = list(step["keys"]) if how in ("list", "reentrant") else tuple(step["keys"]) if how == "tuple" else iter(list(step["keys"]))
             sut(sk.update, arg)
             for k in step["keys"]:
                 self._model_add(i, k, 1)
